@@ -176,6 +176,11 @@ pub fn escape_ts_string_expr(expr: &Expr) -> Expr {
         Expr::Lit(ExprLit {
             lit: Lit::Str(str), ..
         }) => make_string_literal(&escape_ts_string(&str.value()), str.span()),
+        // a literal that reached the attribute through a `$name:literal` / `$name:expr`
+        // fragment of a `macro_rules!` macro is wrapped in an invisible group
+        Expr::Group(syn::ExprGroup { expr, .. }) | Expr::Paren(syn::ExprParen { expr, .. }) => {
+            escape_ts_string_expr(expr)
+        }
         other => other.clone(),
     }
 }
